@@ -85,6 +85,15 @@ def key_encoder(name):
     return KeyEnc(name, name in ("f64", "str", "M8"))
 
 
+NAN_AS_NULL = False     # per case ("nanull"): a float NaN / NaT becomes a real null in arrow / polars containers
+
+
+def _pa(arr, type=None):
+    if NAN_AS_NULL and isinstance(arr, np.ndarray) and arr.dtype.kind == "f":
+        return pa.array(arr, type=type, from_pandas=True)
+    return pa.array(arr, type=type)
+
+
 def wrap_container(arr, cont, name=None, index=None):
     """real ndarray / Categorical -> the requested container."""
     if cont == "np":
@@ -94,17 +103,20 @@ def wrap_container(arr, cont, name=None, index=None):
     if cont == "index":
         return pd.Index(arr, name=name)
     if cont == "pl":
-        return pl.Series(name or "", np.asarray(arr))
+        s_ = pl.Series(name or "", np.asarray(arr))
+        return s_.fill_nan(None) if NAN_AS_NULL and s_.dtype.is_float() else s_
     if cont == "pa":
-        return pa.array(arr)
+        return _pa(arr)
     if isinstance(cont, (list, tuple)) and cont[0] == "pachunk":
         pos, chunks = 0, []
         typ = pa.array(arr).type         # (a chunk of nulls alone would get the null type)
         for l in cont[1]:
-            chunks.append(pa.array(arr[pos:pos + l], type=typ))
+            chunks.append(_pa(arr[pos:pos + l], type=typ))
             pos += l
         return pa.chunked_array(chunks, type=typ)
     if cont == "arrowseries":
+        if NAN_AS_NULL and isinstance(arr, np.ndarray) and arr.dtype.kind == "f":
+            return pd.Series(pd.arrays.ArrowExtensionArray(_pa(arr)), name=name)
         return pd.Series(pd.array(arr, dtype=pd.ArrowDtype(pa.array(arr).type)), name=name)
     if cont == "series_tz":          # the same instants, time zone aware (datetime embeddings only)
         return pd.Series(arr, name=name, index=index).dt.tz_localize("UTC").dt.tz_convert("Europe/Dublin")
@@ -113,7 +125,7 @@ def wrap_container(arr, cont, name=None, index=None):
     if cont == "frame1":
         return pd.DataFrame({name or "v": arr}, index=index)
     if cont == "plframe":
-        return pl.DataFrame({name or "v": np.asarray(arr)})
+        return pl.DataFrame({name or "v": wrap_container(arr, "pl", name=name or "v")})
     raise ValueError(cont)
 
 
@@ -167,6 +179,8 @@ def dec_values(op, arr, emb):
 def set_config(case):
     from groupby_lib import _verif
     from groupby_lib.groupby import core
+    global NAN_AS_NULL
+    NAN_AS_NULL = bool(case.get("nanull"))
     core.THRESHOLD_FOR_CHUNKED_FACTORIZE = case.get("T") or 1_000_000
     _verif.ROWS_PER_THREAD = case.get("R") or 1_000_000
 
@@ -249,9 +263,9 @@ def run_reduce(case, gb=None):
     if case["tf"] and op != "size":
         # C07: the container follows the input, and a pandas input's index is carried
         vc = case.get("vcont", "np")
-        tr["kindok"] = int(isinstance(out, (pl.Series, pl.DataFrame)) if vc == "pl" else isinstance(out, (pd.Series, pd.DataFrame)))
+        tr["kindok"] = int(isinstance(out, (pl.Series, pl.DataFrame)) if vc in ("pl", "plframe") else isinstance(out, (pd.Series, pd.DataFrame)))
         if vc == "series" and case.get("vindex") is not None:
             tr["idxok"] = int(list(out.index) == list(case["vindex"]))
-        elif vc != "pl":
+        elif vc not in ("pl", "plframe") and isinstance(out, (pd.Series, pd.DataFrame)):
             tr["idxok"] = int(list(out.index) == list(range(n)))
     return tr
